@@ -242,6 +242,26 @@ class Builder:
                         exp = Exp("const", value=bits, arith=True)
                 self.add(Die(TAG["enumerator"], [a, Attr(AT["name"], FORM["string"], b"e%d" % j)]), exp,
                          "enumerator const_value %s under=%s forms=%s %#x" % (FORM_NAME_OF(a.form), under, forms, bits), True, where=et)
+            # ... and constants *of* that enumeration type: the sign comes from the underlying type, or, failing
+            # that, from the forms of the enumerators (all sdata: signed; all udata: unsigned; otherwise not fixed)
+            for _ in range(3):
+                bits = self.r.choice(width_values(k))
+                hops = self.r.choice([[], ["typedef"], ["const_type"], ["const_type", "typedef"]])
+                tag = self.r.choice(["variable", "template_value_parameter"])
+                # (a block on an enumeration without underlying type is not interpreted: it is reported as an
+                # error, which the statement allows; not generated)
+                if self.r.random() < 0.7 or under is None:
+                    form, attr = fixed_form(k), Attr(AT["const_value"], FORM[fixed_form(k)], bits)
+                else:
+                    form, attr = "block1", Attr(AT["const_value"], FORM["block1"], bits.to_bytes(k, "little"))
+                if under == "signed" or forms == "sdata":
+                    exp = Exp("const", value=signed_of(bits, k), arith=True)
+                elif under == "unsigned" or forms == "udata":
+                    exp = Exp("const", value=bits, arith=True)
+                else:
+                    exp = Exp("const-either", values=(bits, signed_of(bits, k)), arith=True)
+                self.add(Die(TAG[tag], [attr, Attr(AT["type"], FORM["ref4"], self.wrap(et, hops))]), exp,
+                         "const_value/%s %#x on enumeration under=%s forms=%s via %s" % (form, bits, under, forms, "+".join(hops) or "direct"), True)
 
     def locations(self):
         exprs = [bytes([0x50]), bytes([0x91]) + sleb(-24), bytes([0x03]) + struct.pack("<Q", 0x601040), bytes([0x75, 0x08, 0x9f]), b""]
